@@ -298,6 +298,28 @@ def exCfg : PlasVerif.Model.Filenames.Config := { bad := strOf ": /.", sub := st
 def exState : PlasVerif.Model.Filenames.State :=
   PlasVerif.Model.Filenames.initial [.name (strOf "index"), .alts [strOf "${id}", strOf "sect${num.4}"]] [] []
 
+/-- **No file is overwritten**: a file is opened for writing under its name, so of two writes under one name only the
+    later survives; with a generator that never repeats a name every file the rendering writes is found in the
+    output directory afterwards with exactly the content written (together with `render_partition`: the text of every
+    unit is on disk, in the file named for the unit). -/
+theorem files_survive_on_disk {σ ν} [DecidableEq ν] (g : Gen σ ν) (s0 : σ) (split : Int) (tmpl : List Char) (root : Tree)
+    (files : List (File ν)) (hd : InDomain (effLevel split tmpl) root = true) (hg : DistinctGen g s0)
+    (h : render g s0 split tmpl [root] = .ok files) :
+    ∀ f ∈ files, disk files f.1 = some f.2 :=
+  disk_of_nodup files (filenames_distinct g s0 split tmpl root files hd hg h)
+
+/-- … in particular with the model of `plasTeX/Filenames.py` as the name supply, from any generator state -/
+theorem files_survive_on_disk_with_Filenames (cfg : PlasVerif.Model.Filenames.Config)
+    (st : PlasVerif.Model.Filenames.State) (split : Int) (tmpl : List Char) (root : Tree)
+    (files : List (File PlasVerif.Model.Filenames.Str)) (hd : InDomain (effLevel split tmpl) root = true)
+    (h : render (filenamesGen cfg) st split tmpl [root] = .ok files) :
+    ∀ f ∈ files, disk files f.1 = some f.2 :=
+  files_survive_on_disk (filenamesGen cfg) st split tmpl root files hd (filenamesGen_distinct cfg st) h
+
+/-- without distinct names text is lost: two writes under one name, the first is gone (what the faulty generators of
+    the review rounds produced) -/
+example : disk [("index.html", [Tok.txt 1]), ("index.html", [Tok.txt 2])] "index.html" = some [Tok.txt 2] := by decide
+
 /-- **The same on every run**: `render` is a function of generator, configuration and document; moreover what
     the files hold does not depend on the names at all — two renderings of the same document under the same
     split level with *any* two generators (any states) write files with the same layouts and texts. -/
